@@ -1,9 +1,10 @@
 (* C16: executable [check] run on the observations of harness/go/ledger/zz_verif_c16_test.go.
 
    case = (c16 KIND MUTANT (LOOKBACK NX MAXRES B) (SRC ORACLE (round #blockdigest #label)) HONEST FILE OUTCOME)
-     SRC     = (world ACCTS KVS (#oa ...) (#orp ...) #totals #root)     dump of the producer's tracker DB at the balances round
+     SRC     = (world ACCTS KVS (#oa ...) (#orp ...) #totals #root CRE) dump of the producer's tracker DB at the balances round
+     CRE     = ((cidx ctype #creator) ...)            the assetcreators table: LookupCreator of every creatable index of the history
      ACCTS   = ((#addr #enc ((cidx #enc) ...)) ...)   sorted by address / index;  KVS = ((#k #v) ...) sorted by key
-     ORACLE  = (oracle ACCTS KVS #totals #root)       the harness' fold of the deltas (state_at) and its fresh-trie root
+     ORACLE  = (oracle ACCTS KVS #totals #root CRE)   the harness' fold of the deltas (state_at, creators) and its fresh-trie root
      HONEST, FILE = (SECTION ...) the producer's file and the file given to the accessor, decoded:
        (hdr version balancesRound blocksRound #totals nacct nkv noa norp nchunks #label #digest)
        (sp #bytes n) | (raw kind) | (other #name)
@@ -37,18 +38,18 @@ Definition as_kv (t : term) : option (bytes * bytes) :=
   match t with TL [TB k; TB v] => Some (k, v) | _ => None end.
 
 Record dump := mkDump { d_accts : list (bytes * bytes * list (N * bytes)); d_kvs : list (bytes * bytes);
-                        d_oa : list bytes; d_orp : list bytes; d_totals : bytes; d_root : bytes }.
+                        d_oa : list bytes; d_orp : list bytes; d_totals : bytes; d_root : bytes; d_cre : list term }.
 
 Definition as_dump (t : term) : option dump :=
   match t with
-  | TL [TS "world"; TL accts; TL kvs; TL oa; TL orp; TB tot; TB root] =>
+  | TL [TS "world"; TL accts; TL kvs; TL oa; TL orp; TB tot; TB root; TL cre] =>
       match map_opt as_acct accts, map_opt as_kv kvs, map_opt as_bytes oa, map_opt as_bytes orp with
-      | Some a, Some k, Some o, Some p => Some (mkDump a k o p tot root)
+      | Some a, Some k, Some o, Some p => Some (mkDump a k o p tot root cre)
       | _, _, _, _ => None
       end
-  | TL [TS "oracle"; TL accts; TL kvs; TB tot; TB root] =>
+  | TL [TS "oracle"; TL accts; TL kvs; TB tot; TB root; TL cre] =>
       match map_opt as_acct accts, map_opt as_kv kvs with
-      | Some a, Some k => Some (mkDump a k [] [] tot root)
+      | Some a, Some k => Some (mkDump a k [] [] tot root cre)
       | _, _ => None
       end
   | _ => None
@@ -175,7 +176,7 @@ Definition dump_eqb (a b : dump) : bool :=
   term_eqb (term_of_kvs (d_kvs a)) (term_of_kvs (d_kvs b)) &&
   term_eqb (TL (map TB (d_oa a))) (TL (map TB (d_oa b))) &&
   term_eqb (TL (map TB (d_orp a))) (TL (map TB (d_orp b))) &&
-  beqb (d_totals a) (d_totals b) && beqb (d_root a) (d_root b).
+  beqb (d_totals a) (d_totals b) && beqb (d_root a) (d_root b) && term_eqb (TL (d_cre a)) (TL (d_cre b)).
 
 (* ---------- signatures of the findings ---------- *)
 (* a record with ExpectingMoreEntries whose account data is not the data of the record that follows
@@ -211,6 +212,15 @@ Fixpoint set_trie (hs : list bytes) (st : tstate) : tstate :=
   | [] => st
   | h :: hs' => set_trie hs' (fst (fst (trie_add st h)))
   end.
+
+(* finishBalances: the creators table is filled from the OWNING resources of the staged accounts
+   (writeCreatables per chunk; asset = 0, app = 1), listed by index *)
+Definition creators_of (fl : bytes -> bool * bool * bool * bool) (accts : list (bytes * bytes * list (N * bytes))) : list term :=
+  let rows := flat_map (fun a => flat_map (fun r =>
+                 let '(isapp, isasset, own, _) := fl (snd r) in
+                 if own then (if isasset then [(fst r * 2, fst (fst a))] else []) ++ (if isapp then [(fst r * 2 + 1, fst (fst a))] else [])
+                 else []) (snd a)) accts in
+  map (fun x => TL [tn (fst x / 2); tn (fst x mod 2); TB (snd x)]) (sort_by (fun x y => fst x <? fst y) rows).
 
 Definition idH (x : bytes) : bytes := x.
 
@@ -270,7 +280,8 @@ Definition check (t : term) : term :=
               (* ---- spec ---- *)
               let src_ok := term_eqb (term_of_accts (d_accts src)) (term_of_accts (d_accts orc)) &&
                             term_eqb (term_of_kvs (d_kvs src)) (term_of_kvs (d_kvs orc)) &&
-                            beqb (d_totals src) (d_totals orc) && beqb (d_root src) (d_root orc) in
+                            beqb (d_totals src) (d_totals orc) && beqb (d_root src) (d_root orc) &&
+                            term_eqb (TL (d_cre src)) (TL (d_cre orc)) in
               let impl_restored := match outcome with TL [TS "accepted"; w] => as_dump w | _ => None end in
               let impl_rejected := match outcome with TL [TS "rejected"; TS _] => true | _ => false end in
               let restored_ok := match impl_restored with Some w => dump_eqb w src | None => false end in
@@ -288,14 +299,15 @@ Definition check (t : term) : term :=
                 | Rejected s => TL [TS "rejected"; TS (stage_sym s)]
                 | Accepted (w, _) =>
                     TL [TS "accepted"; TL [TS "world"; term_of_accts (canon_accts (w_accts w)); term_of_kvs (canon_kvs (w_kvs w));
-                                           TL (map TB (w_oa w)); TL (map TB (w_orp w)); TB (w_totals w)]]
+                                           TL (map TB (w_oa w)); TL (map TB (w_orp w)); TB (w_totals w);
+                                           TL (creators_of fl (w_accts w))]]
                 end in
               let mterm := term_of_outcome m in
               (* the accessor without fixes/C16.patch *)
               let uterm := term_of_outcome (restore false idH tot fl lA lR lK ff lab0 rnd digest) in
               let iterm :=
                 match outcome with
-                | TL [TS "accepted"; TL [TS "world"; a; k; o; p; tot; _]] => TL [TS "accepted"; TL [TS "world"; a; k; o; p; tot]]
+                | TL [TS "accepted"; TL [TS "world"; a; k; o; p; tot; _; cre]] => TL [TS "accepted"; TL [TS "world"; a; k; o; p; tot; cre]]
                 | x => x
                 end in
               let wr_ok := negb is_honest ||
